@@ -544,6 +544,12 @@ def gen_portfolio(ch, feats):
                 assets.insert(0, ob)
             else:
                 assets.insert(1, ob)
+        elif ex == "loop":      # a transport leaving and entering the SAME node (a pure loss, only sensible as a sink at negative prices)
+            assets.append(dict(type="Transport", name="loop", nodes=["n1", "n1"], min_cap=r(0.0, g), max_cap=r(2.0, g),
+                               efficiency=ch.pick("loop.efficiency", [0.75, 0.5]), costs_const=-0.3))
+        elif ex == "mcsame":    # a multi-commodity contract attached twice to the same node (own consumption)
+            assets.append(dict(type="MultiCommodityContract", name="mcs", nodes=["n1", "n1", nodes[-1]], price="ec", min_cap=r(0.0, g), max_cap=r(3.0, g),
+                               factors_commodities=[1.0, ch.pick("mcs.own", [-0.25, -0.5]), 0.5]))
         elif ex == "dem":
             assets.append(dict(type="SimpleContract", name="dem", nodes=[nodes[-1]],
                                min_cap=r(-1.0, g), max_cap=r(-1.0, g)))
